@@ -1,7 +1,8 @@
 //! Cases built from the SEM generator: `{"kind":"sem","seed":S,"n":N,"opts":"clean"|"probes"}`.
 use serde_json::json;
 
-use crate::fw::{Case, Rng};
+use crate::fw::{Case, Failure, Rng, Verdict};
+use crate::ws::{pos, r2};
 use crate::gen::sem::{self, Opts, Program};
 use crate::ws::Workspace;
 
@@ -22,4 +23,51 @@ pub fn workspace_of(p: &Program) -> Workspace {
 
 pub fn show(p: &Program) -> String {
     p.files.iter().map(|(n, t)| format!("--- {n}\n{t}")).collect::<Vec<_>>().join("\n")
+}
+
+/// hand-written regression cases: `{"kind":"manual","files":{..},"expect":[{"at":"<marker text>","nth":k,"def":"<marker text>"|null,"def_nth":k,"diag":bool}]}`
+/// positions are given by the k-th occurrence of a text snippet in root.td (robust against re-indentation)
+pub fn manual(case: &Case, prop: &str) -> Verdict {
+    let Some((files, root)) = crate::ws::case_files(case) else { return Verdict::Skip("malformed-case") };
+    let ws = crate::ws::Workspace::new(&files, &root);
+    let a = ws.analysis();
+    let text = files.iter().find(|f| f.0 == root).map(|f| f.1.clone()).unwrap_or_default();
+    let nth = |needle: &str, k: usize| -> Option<usize> {
+        let mut from = 0;
+        let mut found = None;
+        for _ in 0..=k {
+            let p = text[from..].find(needle)?;
+            found = Some(from + p);
+            from += p + needle.len();
+        }
+        found
+    };
+    let diags = a.diagnostics();
+    for e in case["expect"].as_array().cloned().unwrap_or_default() {
+        let Some(at) = nth(e["at"].as_str().unwrap_or("\u{0}"), e["nth"].as_u64().unwrap_or(0) as usize) else { return Verdict::Skip("malformed-case") };
+        let got = a.goto_definition(pos(ws.root, at)).map(|t| (t.file, r2(t.range).0));
+        let want = match e["def"].as_str() {
+            Some(d) => match nth(d, e["def_nth"].as_u64().unwrap_or(0) as usize) {
+                Some(p) => Some((ws.root, p)),
+                None => return Verdict::Skip("malformed-case"),
+            },
+            None => None,
+        };
+        if e["skipdef"].as_bool() != Some(true) && got != want {
+            return Verdict::Fail(Failure::new(&format!("{prop}.manual"), format!("{prop}.manual:{}", case["name"].as_str().unwrap_or("?")), format!("goto_definition at {at} ({}) gives {got:?}, expected {want:?}", e["at"])));
+        }
+        if e["diag"].as_bool() == Some(true) {
+            let covered = diags.get(&ws.root).map(|v| v.iter().any(|x| r2(x.location.range).0 <= at && r2(x.location.range).1 > at)).unwrap_or(false);
+            if !covered {
+                return Verdict::Fail(Failure::new(&format!("{prop}.manual"), format!("{prop}.manual:{}", case["name"].as_str().unwrap_or("?")), format!("no diagnostic covers offset {at} ({})", e["at"])));
+            }
+        }
+        if e["nodiag"].as_bool() == Some(true) {
+            let all: Vec<String> = diags.values().flatten().map(|d| d.message.clone()).collect();
+            if !all.is_empty() {
+                return Verdict::Fail(Failure::new(&format!("{prop}.manual"), format!("{prop}.manual:{}", case["name"].as_str().unwrap_or("?")), format!("unexpected diagnostics {all:?}")));
+            }
+        }
+    }
+    Verdict::pass(true)
 }
